@@ -137,7 +137,9 @@ Definition lnk_split (case: list N) : option (N * list N * list packet * N) :=
                                  (* trailing flags: bit 0 = the receiving node also transmits before polling (no effect in the model: sender and
                                     receiver are independent); serial port only: bit 1 = reads are interrupted (EINTR) inside frames, bit 2 = 'no data
                                     yet' is reported as some other read failure than TimedOut (Ok(0), WouldBlock, ...); bit 3 = the receiver object has already
-                                    received 70000 packets (no effect in the model: a receiver is in its initial state after every delivered packet) *)
+                                    received 70000 packets (no effect in the model: a receiver is in its initial state after every delivered packet);
+                                    bit 4 = the node has just transmitted a copy of the last packet; bit 5 = 300 ms of real time pass at every 'no data yet'
+                                    answer (neither has an effect in the model) *)
                                  | Some (ps, [fl]) => Some (link, gaps, ps, fl)
                                  | _ => None end
       | _ => None
